@@ -352,6 +352,57 @@ def run(ctx):
     ctx.floor('raw_sql_sites_in_renderer', 6)
     ctx.floor('ast_printer_classes', 20)
     check_text_rewrites(ctx, tree, cls)
+    check_native_text(ctx, cls)
+
+
+def sa_text_compiled(t):
+    """what SQLAlchemy's text() construct makes of a string when it is compiled with literal binds (reference: sqlalchemy.sql.elements.TextClause._bind_params_regex,
+    sqlalchemy.sql.compiler.BIND_PARAMS / BIND_PARAMS_ESC and SQLCompiler.visit_textclause, 1.4 and 2.0): `:name` - also inside a quoted literal - is a bind parameter
+    (rendered NULL, it has no value); `\\:name` is un-escaped to `:name`"""
+    import re as _re
+    names = set(_re.findall(r"(?<![:\w\x5c]):(\w+)(?!:)", t))
+    out = _re.sub(r"(?<![:\w\$\x5c]):([\w\$]+)(?![:\w\$])", lambda m: 'NULL' if m.group(1) in names else m.group(0), t)
+    return _re.sub(r"\x5c(:[\w\$]*)(?![:\w\$])", lambda m: m.group(1), out)
+
+
+def check_native_text(ctx, cls):
+    """A native query (`FROM db (text)`) is the user's text: prepare_select interpreted on such a FROM, with sa.text standing in as a recorder; what text() and the
+    compiler make of the recorded string (reference semantics above) must be the text itself, character for character - a `:word` inside a string constant of the
+    native query is data, not a bind parameter."""
+    from ..interp import Interp, Obj, Raised, Env, class_members
+    ps = next((m for m in cls.body if isinstance(m, ast.FunctionDef) and m.name == 'prepare_select'), None)
+    ctx.need(ps is not None, 'SqlalchemyRender.prepare_select not found')
+    probes = ["select * from t where a = ' :b'", "select ts::date as d from t where at > '10:30' and n = :p", "select 'it''s', 'a\\:b' from t", 'select 1',
+              "select * from t where s = ':x:' or s = ':'"]
+    n = 0
+    for text in probes:
+        seen = []
+
+        def sa_text(it, t, *a, **k):
+            seen.append(t)
+            return Obj('SaText', _fluent=True, _log=[])
+        query = Obj('SaSelect', _fluent=True, _log=[])
+        node = Obj('Select', targets=[Obj('Star')], distinct=False, where=None, group_by=None, having=None, order_by=None, limit=None, offset=None, cte=None, mode=None,
+                   using=None, alias=None, parentheses=False,
+                   from_table=Obj('NativeQuery', integration=Obj('Identifier', parts=['db'], alias=None), query=text, alias=Obj('Identifier', parts=['x'], alias=None), parentheses=False))
+        stubs = {'sa.select': lambda it, *c: query, 'self.to_expression': lambda it, t: ('expr', id(t)), 'self.to_table': lambda it, t: ('table', 't'),
+                 'sa.text': sa_text, 'self.get_alias': lambda it, x: x}
+        it = Interp.for_file(ctx.src, RENDER, {'Join': set(), 'Select': set(), 'Identifier': set(), 'Union': set(), 'Intersect': set(), 'Except': set(), 'NativeQuery': set()},
+                             stubs, methods={'SqlalchemyRender': class_members(cls)})
+        try:
+            it.call_function(ps, [Obj('SqlalchemyRender'), node], {}, Env())
+        except Raised as r:
+            ctx.ob('C07.native-text', text, r.exc_name == 'NotImplementedError', f'prepare_select raises {r.exc_name} on FROM db ({text})', file=RENDER, line=ps.lineno)
+            continue
+        n += 1
+        handed = [t for t in seen if isinstance(t, str) and t != '*']
+        got = [sa_text_compiled(t) for t in handed]
+        ctx.ob('C07.native-text', text, got == [text],
+               f'the native query {text!r} is handed to sa.text() as {handed}, which SQLAlchemy compiles to {got}: text() reads every `:word` as a bind parameter - also '
+               f'inside a string constant - and renders it NULL; the text of a native query must arrive unchanged', file=RENDER, line=ps.lineno,
+               witness="SELECT * FROM db (select * from t where a = ' :b') AS x")
+    ctx.setcount('native_text_rows', n)
+    ctx.floor('native_text_rows', 5)
 
 
 def check_text_rewrites(ctx, tree, cls):
